@@ -84,6 +84,14 @@ theorem C05_table_semantics (d : α) (e : Entry) (he : e ∈ table) (p : Params)
     SpecSem d st ops (e.build p ops) (e.spec p) :=
   entry_sem d e he p st ops hv hpre
 
+/-- The flags the driver computes for the harness are consequences: for an entry that passes the
+`pureFresh` check, the executed program's exact cell-level outcome is "no operand mutated, no
+(result, operand) pair shares a cell" – on every store and every operand layout. -/
+theorem C05_outcome_pureFresh (d : α) (st : Store α) (ops : List View) (B : Built)
+    (hv : ValidOps st ops) (h : specCheck .pureFresh ops.length B = true) :
+    outcome d st ops B.prog (B.res.map (·.2)) = ⟨[], []⟩ :=
+  outcome_pureFresh d st ops B hv h
+
 /-! ### named instances -/
 
 /-- `tensor.permute(order)` (repaired code) for every order – the identity and orders that move
